@@ -51,7 +51,13 @@ def r1_fold(L, repo):
         for ln in (0, 1, 9, 156, 458, 751):
             raw = bytes((7 * i + ln) & 0xff for i in range(ln))
             e = Ev(repo, ci.mod, env={M: Instance(mci)}, self_cls=ci)
-            e.hooks = {"%s.gen_msg" % M: lambda a, raw=raw: bytearray(raw)}
+            def gen(a, kw, raw=raw):
+                # the oracle for gen_msg(): the message's wire form; legacy padding adds two octets (which a capture
+                # must not contain: "exactly as gen_msg() produced it" refers to the plain call)
+                legacy = bool(a[0]) if a else bool(kw.get("legacy", False))
+                return bytearray(raw) + (bytearray(2) if legacy else bytearray())
+            gen.wants_kw = True
+            e.hooks = {"%s.gen_msg" % M: gen}
             try:
                 r = e.run_block(dm.body)
             except Unknown:
